@@ -4,7 +4,8 @@
 set -e
 cd "$(dirname "$0")"
 export CARGO_NET_OFFLINE=true
-(cd harness && cargo build --offline --release --target-dir /verif/.build/harness 2>&1 | tail -3)
-/verif/.build/harness/release/roxh tables > lean/Rox/Generated.lean.new
+ROOT="$(pwd)"
+(cd harness && cargo build --offline --release --target-dir "$ROOT/.build/harness" 2>&1 | tail -3)
+"$ROOT/.build/harness/release/roxh" tables > lean/Rox/Generated.lean.new
 if ! cmp -s lean/Rox/Generated.lean.new lean/Rox/Generated.lean; then mv lean/Rox/Generated.lean.new lean/Rox/Generated.lean; else rm lean/Rox/Generated.lean.new; fi
 (cd lean && lake build Rox roxdrv 2>&1 | tail -3)
